@@ -234,8 +234,9 @@ structure Cfg where
 /-- the body of one iteration of the outer loop after the packing -/
 def sendChunk (cfg : Cfg) (script : List Srv) (now : Nat) (i : Nat) (ch : Chunk) (acc : Acc) : Acc :=
   -- every skipped event went through handleEventError: one error, one Down
-  let acc := { acc with ctr := { acc.ctr with rerr := acc.ctr.rerr + ch.dropped.length,
-                                             downs := acc.ctr.downs + ch.dropped.length } }
+  let c := acc.ctr
+  let c := { c with rerr := c.rerr + ch.dropped.length, downs := c.downs + ch.dropped.length }
+  let acc := { acc with ctr := c }
   if ch.sub.isEmpty then acc                                   -- `continue`
   else if cfg.badUrl ch.dest then                              -- "failed to create request URL"
     { acc with ctr := batchFailure ch.sub.length acc.ctr }
@@ -318,8 +319,8 @@ def stale (cfg : Cfg) (now : Nat) (b : Batch) : Bool :=
 /-- one firing of the batch ticker, handled at clock `s.now` -/
 def tick (cfg : Cfg) (script : List Srv) (s : St) : St :=
   let due := s.batches.filter (fun kb => stale cfg s.now kb.2)
-  let s' := { s with batches := s.batches.map
-    (fun kb => if stale cfg s.now kb.2 then (kb.1, { kb.2 with events := [] }) else kb) }
+  let bs := s.batches.map (fun kb => if stale cfg s.now kb.2 then (kb.1, (⟨[], kb.2.start⟩ : Batch)) else kb)
+  let s' := { s with batches := bs }
   record cfg s' (due.map (fun kb => ⟨kb.1, kb.2.events, kb.2.start, s.now, .tick, script⟩))
 
 /-- `k` consecutive firings of the ticker, one period apart -/
